@@ -402,6 +402,10 @@ class DNSIncoming:
             if length < 0x40:
                 label_idx = off + DNS_COMPRESSION_HEADER_LEN
                 labels.append(self.data[label_idx : label_idx + length].decode('utf-8', 'replace'))
+                if len(labels) > MAX_DNS_LABELS:
+                    raise IncomingDecodeError(
+                        f"Maximum dns labels reached while processing label at {off} from {self.source}"
+                    )
                 off += DNS_COMPRESSION_HEADER_LEN + length
                 continue
 
